@@ -1,7 +1,7 @@
 """C03 -- masked PSF blurring equals true 2-D convolution restricted to the mask."""
 import numpy as np
 from fractions import Fraction
-from harness.common import cz, cq, cnat, cbool, clist, ctup, cres, import_aa, frac, exn_name
+from harness.common import cz, cq, cnat, cbool, clist, ctup, cres, import_aa, frac, exn_name, call_res
 
 ID = "C03"
 GEN = []
@@ -91,6 +91,8 @@ def gen_inputs(tier, rng):
         if all(all(r) for r in m): m[0][0] = False
         K = rand_kernel(rng, kh, kw)
         yield {"op": "init", "m": m, "K": [[str(v) for v in r] for r in K], "seed": 0, "sparse": False}
+        # Kernel2D.convolved_array(_with_mask)_from has its own odd-kernel check and no footprint condition
+        yield {"op": "whole", "m": m, "K": [[str(v) for v in r] for r in K], "seed": i, "sparse": False}
     for i in range(40 if tier == "thorough" else 6):
         yield {"op": "simulate", "seed": rng.randrange(10 ** 9)}
 
@@ -125,14 +127,14 @@ def run_case(inp):
         native = [[Fraction(rng.randint(-9, 9)) for _ in range(len(m[0]))] for _ in range(len(m))]
         arr = aa.Array2D.no_mask(values=[fl(r) for r in native], pixel_scales=1.0)
         if inp["seed"] % 2:
-            res = kernel.convolved_array_with_mask_from(array=arr.native, mask=mask)
+            res = call_res(kernel.convolved_array_with_mask_from, array=arr.native, mask=mask)
         else:
             # convolved_array_from convolves array.native (zero outside the array's own mask) and slims by that mask
             arr = aa.Array2D(values=[fl(r) for r in native], mask=mask)
             native = [[Fraction(0) if m[y][x] else native[y][x] for x in range(len(m[0]))] for y in range(len(m))]
-            res = kernel.convolved_array_from(array=arr)
-        out = [frac(x) for x in np.array(res.slim)]
-        return dict(base, coq=f"(KWhole {cmask(m)} {cqm(native)} {cqm(K)} {cqv(out)})", out=[str(x) for x in out])
+            res = call_res(kernel.convolved_array_from, array=arr)
+        out = ("ok", [frac(x) for x in np.array(res[1].slim)]) if res[0] == "ok" else res
+        return dict(base, coq=f"(KWhole {cmask(m)} {cqm(native)} {cqm(K)} {cres(out, cqv)})", out=str(out)[:300])
     c = aa.Convolver(mask=mask, kernel=kernel)
     img = rand_vals(rng, nun, inp["sparse"])
     if op == "convolve":
